@@ -131,3 +131,152 @@ def thunk_stream(ctx, rng, n):
     for (inp, got), a in zip(jobs, ctx.driver.ask(reqs)):
         if a != got:
             ctx.disagree("Model.Thunk (Deferred._wait under try_compute: remembered values and give-ups)", inp, a, got)
+
+
+# ---- graphs that may be cyclic: deferred.Awaiting (the stack of values being computed) -------------
+
+def _gen_cyclic(rng):
+    npro = rng.randint(1, 4)
+    nth = rng.randint(1, 6)
+    back = rng.choice([0.15, 0.4, 0.8])
+
+    def expr(j, depth):
+        c = rng.random()
+        if depth == 0 or c < 0.35:
+            k = rng.random()
+            if k < 0.25:
+                return ("l", rng.randint(-9, 9))
+            if k < 0.55:
+                return ("p", rng.randrange(npro))
+            if j >= 0 and rng.random() >= back and j + 1 < nth:
+                return ("t", rng.randrange(j + 1, nth))
+            return ("t", rng.randrange(nth))                # any thunk: itself, an earlier one, a later one
+        return ("+", expr(j, depth - 1), expr(j, depth - 1))
+    bodies = [expr(j, rng.randint(0, 3)) for j in range(nth)]
+    ops = []
+    unsettled = list(range(npro))
+    rng.shuffle(unsettled)
+    for _ in range(rng.randint(2, 12)):
+        if unsettled and rng.random() < 0.35:
+            ops.append(("S", unsettled.pop(), rng.randint(-20, 20)))
+        else:
+            ops.append(("W", expr(-1, rng.randint(0, 2)) if rng.random() < 0.3 else ("t", rng.randrange(nth))))
+    ops.append(("W", ("t", 0)))
+    return npro, bodies, ops
+
+
+def _plain_aw(e, bodies, pv, stack):
+    """the engine with the awaiting stack and no memory: a number, 'not-ready' or 'cycle' (left to right)"""
+    if e[0] == "l":
+        return e[1]
+    if e[0] == "p":
+        return pv.get(e[1], "not-ready")
+    if e[0] == "t":
+        if e[1] in stack:
+            return "cycle"
+        return _plain_aw(bodies[e[1]], bodies, pv, stack + (e[1],))
+    a = _plain_aw(e[1], bodies, pv, stack)
+    if isinstance(a, str):
+        return a
+    b = _plain_aw(e[2], bodies, pv, stack)
+    return b if isinstance(b, str) else a + b
+
+
+def _run_impl_aw(npro, bodies, ops):
+    from pdpy11 import deferred as D
+    from . import internals
+    P = [D.Promise[int]("q%d" % i) for i in range(npro)]
+    T = []
+
+    def ev(e):
+        if e[0] == "l":
+            return e[1]
+        if e[0] == "p":
+            return D.wait(P[e[1]])
+        if e[0] == "t":
+            return D.wait(T[e[1]])
+        return ev(e[1]) + ev(e[2])
+    for b in bodies:
+        T.append(D.Deferred(int, (lambda b=b: ev(b))))
+    out, answers = [], []
+    for op in ops:
+        if op[0] == "S":
+            P[op[1]].settle(op[2])
+            continue
+        res = None
+        with D.try_compute:
+            try:
+                res = ev(op[1])
+            except D.DeferredCycle:
+                res = "cycle"
+            except D.NotReadyError:
+                res = "not-ready"
+        if internals.awaiting_stack(D):
+            raise AssertionError("the awaiting stack is not empty after a wait: %r" % (internals.awaiting_stack(D),))
+        mem = " ".join(("v%d" % m[1]) if m[0] == "v" else m[0] for m in (internals.thunk_memory(D, t) for t in T))
+        out.append((res if isinstance(res, str) else "value %d" % res) + " [" + mem + "]")
+        answers.append(res)
+    return " | ".join(out), answers
+
+
+def await_stream(ctx, rng, n):
+    """cyclic graphs: the real Awaiting/Deferred against Model.Await.evalAwMemo (verb `await`), and against the engine
+    with a stack and no memory (value level: a number is never confused with 'no answer', and the numbers agree)"""
+    from pdpy11 import deferred as D
+    from . import internals
+    try:
+        depth0 = internals.try_depth(D)
+        internals.awaiting_stack(D)
+    except internals.TieBroken as tb:
+        ctx.disagree("tie to deferred.py internals", {"missing": str(tb)}, "try_compute.depth / Awaiting.awaiting_stack", "not found")
+        return
+    reqs, jobs = [], []
+    for _ in range(n):
+        npro, bodies, ops = _gen_cyclic(rng)
+        script = "%d ; " % npro + " ; ".join("T " + _rpn(b) for b in bodies) + " ; " + " ; ".join(
+            ("S %d %d" % (o[1], o[2])) if o[0] == "S" else "W " + _rpn(o[1]) for o in ops)
+        inp = {"script": script}
+        ctx.case(("await", script))
+        ctx.count("await-scripts")
+        try:
+            got, answers = _run_impl_aw(npro, bodies, ops)
+        except internals.TieBroken as tb:
+            ctx.disagree("tie to deferred.py internals (the two memories of a thunk)", {"missing": str(tb)}, "settled / value / not_ready_epoch", "not found")
+            return
+        except RecursionError as e:
+            ctx.violation("a wait on a cyclic graph of values did not end (the awaiting stack did not stop it)", inp, expected="an answer",
+                          observed=repr(e)[:200])
+            internals.set_try_depth(D, depth0)
+            del internals.awaiting_stack(D)[:]
+            continue
+        except Exception as e:  # noqa: BLE001
+            ctx.violation("Deferred / Promise / Awaiting raised on a script of waits and settlements", inp, expected="answers", observed=repr(e)[:300])
+            internals.set_try_depth(D, depth0)
+            del internals.awaiting_stack(D)[:]
+            continue
+        pv, ai = {}, 0
+        for op in ops:
+            if op[0] == "S":
+                pv[op[1]] = op[2]
+                continue
+            want = _plain_aw(op[1], bodies, pv, ())
+            ctx.count("await-waits")
+            ctx.count("await-waits answered 'cycle'", want == "cycle")
+            ctx.count("await-waits answered with a number", not isinstance(want, str))
+            have = answers[ai]
+            if isinstance(want, str) != isinstance(have, str) or (not isinstance(want, str) and want != have):
+                ctx.violation("a wait on a graph with cycles answered differently from the engine without memory (a number where there is "
+                              "none, none where there is one, or another number)", dict(inp, wait=_rpn(op[1]), settled=dict(pv)),
+                              expected=want, observed=have)
+            elif want != have:
+                ctx.count("await-waits where the code says 'cycle' and the memoryless engine 'not-ready' or the reverse")
+            ai += 1
+        reqs.append("await " + script)
+        jobs.append((inp, got))
+    for (inp, got), a in zip(jobs, ctx.driver.ask(reqs)):
+        code_side = " | ".join(x.split(" plain=")[0] for x in a.split(" | "))
+        if code_side != got:
+            ctx.disagree("Model.Await (BaseDeferred.wait / Awaiting around Deferred._wait under try_compute)", inp, code_side, got)
+        for x in a.split(" | "):
+            if " plain=" in x and x.split(" [")[0] != x.split(" plain=")[1]:
+                ctx.count("model: evalAwMemo and evalAw answer differently (cycle against not-ready)")
